@@ -65,6 +65,7 @@ STD_HIER = {
     "std::overflow_error": ["std::runtime_error"], "std::system_error": ["std::runtime_error"], "std::regex_error": ["std::runtime_error"],
     "std::bad_alloc": ["std::exception"], "std::bad_cast": ["std::exception"],
 }
+API_ENTRIES = ["CppCheck::check", "CppCheck::checkBuffer", "CppCheck::analyseWholeProgram"]
 FUNNELS = [("CppCheck::checkInternal", 0, "checkInternal.outer"), ("CppCheck::checkInternal", 1, "checkInternal.perConfiguration"),
            ("CppCheck::checkClang", 0, "checkClang")]
 # guard kinds (Site.guard / PEdge.blocked come from these AST-checked rules)
@@ -549,9 +550,16 @@ def analyse(recs):
         caller, hls, blocked = edge
         return not caught_in(hls, t) and t not in blocked
 
+    # entry points: the process (main, static initialisation) and the analysis API — an exception leaving main aborts the
+    # process, an exception leaving the per-file / whole-program analysis is a problem that was not turned into a finding
     entries = [u for u in fids if fn[u]["name"] == "main"] + [u for u in fids if u == "<global-init>"]
     if not any(fn[u]["name"] == "main" for u in entries):
         raise Unrecognised("no main function found")
+    api = [u for u in fids if fn[u]["name"] in API_ENTRIES and fn[u]["kind"] == "fn"]
+    for nm in API_ENTRIES:
+        if not any(fn[u]["name"] == nm for u in api):
+            raise Unrecognised("analysis API function %s not found" % nm)
+    entries += api
     sorted_edges = dict((g, sorted(es, key=lambda e: (fn[e[0]]["name"], e[0], e[1], e[2]))) for g, es in edges.items())
 
     def reach_from(f0, t):
@@ -915,7 +923,8 @@ def run_case(ctx, exe, files, args, timeout):
             rc, out, err, to = None, ex.stdout or b"", ex.stderr or b"", True
         dt = time.time() - t
         err_t = (err or b"").decode("latin-1")
-        o = dict(rc=rc, timeout=to, dt=round(dt, 2), stderr=err_t[-1500:], stdout=(out or b"").decode("latin-1")[-400:])
+        out_t = (out or b"").decode("latin-1")
+        o = dict(rc=rc, timeout=to, dt=round(dt, 2), stderr=err_t[-1500:], stdout=out_t[-400:], stdout_full=out_t)
         m = TERM_RE.search(err_t)
         if to:
             o["kind"] = "timeout"
@@ -932,8 +941,15 @@ def run_case(ctx, exe, files, args, timeout):
         elif rc not in NORMAL_STATUS:
             o["kind"] = "status"
             o["detail"] = str(rc)
+        elif re.search(r"^cppcheck: error: ", err_t, re.M) and re.search(r"^Checking ", o["stdout_full"], re.M):
+            # main()'s last-resort handler writes to stderr (command-line errors go to stdout): after "Checking ..." it means an
+            # exception left the analysis API instead of becoming a finding
+            o["kind"] = "escaped"
+            mm = re.search(r"^cppcheck: error: ([^\n]*)", err_t, re.M)
+            o["detail"] = mm.group(1)[:120]
         else:
             o["kind"] = "ok"
+        o.pop("stdout_full", None)
         return o
     finally:
         shutil.rmtree(d, ignore_errors=True)
@@ -948,14 +964,14 @@ def load_cases():
 SIGNATURES = {
     "polyspace-range-out-of-range": dict(kind="uncaught", detail=r"std::out_of_range\|stoi", input=r"polyspace"),
     "json-nonfinite-number": dict(kind="uncaught", detail=r"std::overflow_error", args=r"--(addon|project)=\S*\.json"),
-    "define-option-macro-error": dict(kind="uncaught", detail=r"simplecpp::Macro::Error", args=r"(^| )-D"),
+    "define-option-macro-error": dict(kind="escaped", detail=r"unknown exception", args=r"(^| )-D"),
     "json-entry-type-mismatch": dict(kind="uncaught", detail=r"std::runtime_error\|.*type mismatch! call is<type>", args=r"--project=\S*\.json"),
     "vcxproj-condition-segv": dict(kind="signal", detail=r"11", args=r"--project=\S*\.vcxproj", input=r"Condition="),
     "ast-nested-lambda-hang": dict(kind="timeout", detail=r"", input=r"\[\]\s*\{[^;]*\[\]\s*\{"),
     "vcxproj-condition-internalerror": dict(kind="uncaught", detail=r"InternalError", args=r"--project=\S*\.vcxproj", input=r"Condition="),
     "gui-project-library-comma": dict(kind="uncaught", detail=r"std::runtime_error\|handling of multiple libraries", args=r"--project=\S*\.cppcheck"),
     "suppress-xml-non-numeric": dict(kind="uncaught", detail=r"std::runtime_error\|converting '.*' to integer failed", args=r"--suppress-xml="),
-    "report-type-guideline-stoi": dict(kind="uncaught", detail=r"std::(invalid_argument|out_of_range)\|stoi", args=r"--report-type=misra"),
+    "report-type-guideline-stoi": dict(kind="escaped", detail=r"stoi", args=r"--report-type=misra"),
 }
 
 
@@ -988,7 +1004,7 @@ LIBS = ["std", "posix", "gnu", "windows", "qt", "boost", "googletest", "zlib", "
 
 
 def gen_options(rng, lang):
-    o = ["-q"]
+    o = []
     if rng.random() < 0.7:
         o.append("--language=" + lang)
     if rng.random() < 0.5:
@@ -1140,11 +1156,11 @@ def gen_option_file(rng):
     if k < 0.2:
         base = rng.choice([b'[{"directory":".","command":"gcc -DA=1 -Iinc -c a.c","file":"a.c"}]', b'[{"directory":".","arguments":["gcc","-c","a.c","-DX"],"file":"a.c","output":"a.o"}]'])
         data = mutate_text(rng, base, JSON_TOK)
-        return (dict(src, **{"cdb.json": data}), ["-q", "--project=cdb.json"], "project-json")
+        return (dict(src, **{"cdb.json": data}), ["--project=cdb.json"], "project-json")
     if k < 0.35:
         base = rng.choice([b'{"script":"misra.py","args":["--x"],"ctu":false}', b'{"script":"y2038.py","python":"python3","checkers":[{"a":"b"}],"executable":""}'])
         data = mutate_text(rng, base, JSON_TOK)
-        return (dict(src, **{"ad.json": data}), ["-q", "--addon=ad.json", "a.c"], "addon-json")
+        return (dict(src, **{"ad.json": data}), ["--addon=ad.json", "a.c"], "addon-json")
     if k < 0.5:
         cond = " ".join(rng.choice(COND_TOK) for _ in range(rng.randrange(1, 8)))
         if rng.random() < 0.5:
@@ -1153,27 +1169,27 @@ def gen_option_file(rng):
         data = (VCX % x).encode()
         if rng.random() < 0.3:
             data = mutate_text(rng, data, XML_TOK)
-        return (dict(src, **{"p.vcxproj": data}), ["-q", "--project=p.vcxproj"], "vcxproj")
+        return (dict(src, **{"p.vcxproj": data}), ["--project=p.vcxproj"], "vcxproj")
     if k < 0.6:
         base = open(os.path.join(REPO, "cfg", rng.choice(["avr.cfg", "zlib.cfg", "embedded_sql.cfg", "lua.cfg", "googletest.cfg"])), "rb").read()
         data = mutate_text(rng, base, XML_TOK)
-        return (dict(src, **{"l.cfg": data}), ["-q", "--library=l.cfg", "--enable=all", "a.c"], "library-cfg")
+        return (dict(src, **{"l.cfg": data}), ["--library=l.cfg", "--enable=all", "a.c"], "library-cfg")
     if k < 0.7:
         base = open(os.path.join(REPO, "platforms", rng.choice(["avr8.xml", "mips32.xml", "pic16.xml", "arm64-wchar_t4.xml"])), "rb").read()
         data = mutate_text(rng, base, XML_TOK)
-        return (dict(src, **{"p.xml": data}), ["-q", "--platform=p.xml", "a.c"], "platform-xml")
+        return (dict(src, **{"p.xml": data}), ["--platform=p.xml", "a.c"], "platform-xml")
     if k < 0.8:
         base = b'<?xml version="1.0"?>\n<suppressions>\n<suppress><id>arrayIndexOutOfBounds</id><fileName>a.c</fileName><lineNumber>1</lineNumber><symbolName>a</symbolName><hash>12</hash></suppress>\n</suppressions>\n'
         data = mutate_text(rng, base, XML_TOK)
-        return (dict(src, **{"s.xml": data}), ["-q", "--suppress-xml=s.xml", "a.c"], "suppress-xml")
+        return (dict(src, **{"s.xml": data}), ["--suppress-xml=s.xml", "a.c"], "suppress-xml")
     if k < 0.9:
         base = b"arrayIndexOutOfBounds:a.c:1\nuninitvar\n*:b*.c\n// comment\nid:file:2:sym\n"
         data = mutate_text(rng, base, [b":", b"*", b"?", b"\n", b"-1", b"99999999999999999999", b"[", b"\\", b" ", b"//", b"\x00"])
         opt = rng.choice(["--suppressions-list=s.txt", "--exitcode-suppressions=s.txt"])
-        return (dict(src, **{"s.txt": data}), ["-q", opt, "a.c"], "suppressions-list")
+        return (dict(src, **{"s.txt": data}), [opt, "a.c"], "suppressions-list")
     base = b'<?xml version="1.0" encoding="UTF-8"?>\n<project version="1">\n<root name="."/>\n<builddir>b</builddir>\n<platform>unix64</platform>\n<libraries><library>posix</library></libraries>\n<defines><define name="A=1"/></defines>\n<paths><dir name="."/></paths>\n<exclude><path name="x/"/></exclude>\n<suppressions><suppression fileName="a.c" lineNumber="1">id</suppression></suppressions>\n<check-level-exhaustive/>\n<max-ctu-depth>2</max-ctu-depth>\n</project>\n'
     data = mutate_text(rng, base, XML_TOK)
-    return (dict(src, **{"g.cppcheck": data}), ["-q", "--project=g.cppcheck"], "gui-project")
+    return (dict(src, **{"g.cppcheck": data}), ["--project=g.cppcheck"], "gui-project")
 
 
 def shipped_corpus():
